@@ -59,9 +59,11 @@ class PathView:
         v = self.s.val(pk, block, "term")
         return self.prog.simp(sub.resolve(v), self.body)
 
-    def facts(self):
+    def facts(self, edge_filter=None):
         out = []
         for a, b in zip(self.path, self.path[1:]):
+            if edge_filter is not None and not edge_filter(a, b):
+                continue
             for lit in self.s.edge_literals(a, b):
                 i = self.pos[a]
                 sub = PathView(self.prog, self.body, self.path[:i + 1], self.keep_headers)
